@@ -18,9 +18,12 @@
 (*   pass      the same, frozen when the dispatcher last read its queue    *)
 (*             (Entries) and extended by later events                      *)
 (*   ever      containers that have been Locked with priority > 0          *)
-(*   pend[c]   [on, bad]: a start decision for c is not yet followed by a  *)
-(*             process; bad = the instances that were (certainly) held or  *)
-(*             draining when it was made                                   *)
+(*   pend[c]   the start decisions for c not yet followed by a process (a  *)
+(*             sequence: after a dispatcher restart inside one process a   *)
+(*             decision of the old dispatcher may still be carried out     *)
+(*             while the new one decides again); each entry is the set of  *)
+(*             instances that were (certainly) held or draining when the   *)
+(*             decision was made                                           *)
 (*   mode      which reading of "currently Locked" (clause b) is judged:   *)
 (*             "exact"  scheduler-level binding: a scheduling pass is not  *)
 (*                      interleaved with anything, the queue stub is the   *)
@@ -65,7 +68,7 @@
 (* implementation-shaped model uses them so that none of its steps is      *)
 (* blocked by the contract; its refinement property checks the guards.     *)
 (***************************************************************************)
-EXTENDS Naturals, FiniteSets
+EXTENDS Naturals, FiniteSets, Sequences
 
 CONSTANTS Ctrs, Wk       \* sets of container / instance identities
 
@@ -77,7 +80,8 @@ States == {"Queued", "Locked", "Running", "Complete", "Cancelled"}
 
 Startable(c) == api[c].state = "Locked" /\ api[c].prio > 0
 NoProc(c) == \A w \in Wk : c \notin procs[w]
-NoPend == [on |-> FALSE, bad |-> {}]
+NoPend == <<>>
+RemoveAt(s, i) == SubSeq(s, 1, i - 1) \o SubSeq(s, i + 1, Len(s))
 
 DCInit(a, m) ==
     /\ api = a
@@ -124,7 +128,7 @@ SetIB(w, b) == SetIBEff(w, b)
 (* behaviour was being changed at that moment is not in it).                                          *)
 (* qs, qp = state and priority the dispatcher's queue reports for c at that moment.                    *)
 Bad == {w \in Wk : ib[w] \in {"hold", "drain"}}
-StartCallEff(c, bad) == /\ pend' = [pend EXCEPT ![c] = [on |-> TRUE, bad |-> bad]]
+StartCallEff(c, bad) == /\ pend' = [pend EXCEPT ![c] = Append(@, bad)]
                         /\ UNCHANGED <<api, procs, ib, lk, lkNext, pass, ever, mode>>
 StartCall(c, bad, qs, qp) ==
     /\ mode = "exact" => qs = "Locked" /\ qp > 0 /\ c \in ever   \* (b)
@@ -137,23 +141,30 @@ StartCall(c, bad, qs, qp) ==
 (* (w included, if an older process of c is still there) on which a live process of c was seen.       *)
 ProcStartSnap(c, w, others) ==
     /\ others = {}                                               \* (a)
-    /\ pend[c].on /\ w \notin pend[c].bad                         \* (b) decided, (c)
-    /\ pend' = [pend EXCEPT ![c] = NoPend]
+    /\ \E i \in DOMAIN pend[c] :                                  \* (b) decided, (c) not held / draining then
+         /\ w \notin pend[c][i]
+         /\ pend' = [pend EXCEPT ![c] = RemoveAt(@, i)]
     /\ UNCHANGED <<api, procs, ib, lk, lkNext, pass, ever, mode>>
 
 (* A crunch-run process for c comes into existence on w. *)
-ProcStartEff(c, w) ==
+ProcStartEff(c, w) ==          \* (the model carries out decisions in the order they were made)
     /\ procs' = [procs EXCEPT ![w] = @ \cup {c}]
-    /\ pend' = [pend EXCEPT ![c] = NoPend]
+    /\ pend' = [pend EXCEPT ![c] = IF @ = <<>> THEN @ ELSE Tail(@)]
     /\ UNCHANGED <<api, ib, lk, lkNext, pass, ever, mode>>
 ProcStart(c, w) ==
     /\ NoProc(c)                                                  \* (a)
-    /\ pend[c].on /\ w \notin pend[c].bad                         \* (b) decided, (c) not held / draining then
-    /\ ProcStartEff(c, w)
+    /\ \E i \in DOMAIN pend[c] :                                  \* (b) decided, (c) not held / draining then
+         /\ w \notin pend[c][i]
+         /\ pend' = [pend EXCEPT ![c] = RemoveAt(@, i)]
+    /\ procs' = [procs EXCEPT ![w] = @ \cup {c}]
+    /\ UNCHANGED <<api, ib, lk, lkNext, pass, ever, mode>>
 
 (* The start decision for c came to nothing (the exec failed). *)
-StartFailedEff(c) == pend' = [pend EXCEPT ![c] = NoPend] /\ UNCHANGED <<api, procs, ib, lk, lkNext, pass, ever, mode>>
-StartFailed(c) == StartFailedEff(c)
+StartFailedEff(c) == /\ pend' = [pend EXCEPT ![c] = IF @ = <<>> THEN @ ELSE Tail(@)]
+                     /\ UNCHANGED <<api, procs, ib, lk, lkNext, pass, ever, mode>>
+StartFailed(c) == /\ \/ pend[c] = <<>> /\ UNCHANGED pend
+                     \/ \E i \in DOMAIN pend[c] : pend' = [pend EXCEPT ![c] = RemoveAt(@, i)]
+                  /\ UNCHANGED <<api, procs, ib, lk, lkNext, pass, ever, mode>>
 
 (* The process of c on w ends (exit, crash, kill). *)
 ProcExitEff(c, w) == procs' = [procs EXCEPT ![w] = @ \ {c}] /\ UNCHANGED <<api, ib, lk, lkNext, pass, ever, pend, mode>>
